@@ -32,7 +32,12 @@ def prepare():
     sh("git checkout -- . && git clean -fdq", cwd=REPO)
     head = sh("git -C /repo rev-parse HEAD")[1].strip()
     sh("git checkout -q --detach %s" % head, cwd=REPO)  # the hooks the harness needs are those of /repo's HEAD
-    sh("rsync -a --delete --exclude .git --exclude .cache --exclude 'harness/target' --exclude evidence --exclude seeded /verif/ %s/" % VERIF)
+    # the machinery under evaluation: /verif's working tree, or a snapshot of a commit (SEED_REEVAL_SRC) so that "first run"
+    # verdicts are not influenced by edits made while the evaluation is running
+    src = os.environ.get("SEED_REEVAL_SRC", "/verif").rstrip("/")
+    sh("rsync -a --delete --exclude .git --exclude .cache --exclude 'harness/target' --exclude evidence --exclude seeded %s/ %s/" % (src, VERIF))
+    if src != "/verif" and os.path.exists("/verif/lean/.lake") and not os.path.exists(VERIF + "/lean/.lake"):
+        sh("rsync -a /verif/lean/.lake %s/lean/" % VERIF)
     os.makedirs(VERIF + "/evidence", exist_ok=True)
     p = VERIF + "/harness/Cargo.toml"
     txt = open(p).read().replace('path = "/repo"', 'path = "%s"' % REPO)
